@@ -134,6 +134,24 @@ def table_cases(ctx):
                     tenc = [] if not table and table is None else [[[k, sorted(v)] for k, v in sorted(table.items())]] if table is not None else []
                     cmds.append([172, tenc, tag, [[enc_key(k), enc_val(v)] for k, v in d.items()]])
                     cases.append((case, [(k, list(v) if isinstance(v, list) else v) for k, v in got.items()]))
+    # several multi-valued attributes in one tag, one of them already holding a list: every attribute is decided on its own
+    for cname, arg, expect in configs:
+        b = HTMLParserTreeBuilder() if arg == "USE_DEFAULT" else HTMLParserTreeBuilder(multi_valued_attributes=arg)
+        table = b.cdata_list_attributes
+        for tag in ("a", "td", "p"):
+            for a1, a2 in itertools.permutations(["class", "rel", "headers", "id", "accesskey"], 2):
+                d = {a1: ["p", "q"], a2: "x  y\tz", "zz": " keep  me "}
+                got = b._replace_cdata_list_attribute_values(tag, dict(d))
+                is_multi = lambda a: a in expect.get("*", set()) or a in expect.get(tag.lower(), set())
+                exp = {a1: ["p", "q"], a2: ("x  y\tz".split() if is_multi(a2) else "x  y\tz"), "zz": " keep  me "}
+                case = {"config": cname, "tag": tag, "attrs": [a1, a2], "first_value_is_a_list": True}
+                ctx.case(("tbl2", cname, tag, a1, a2), nontrivial=is_multi(a2))
+                if {k: (list(v) if isinstance(v, list) else v) for k, v in got.items()} != exp:
+                    ctx.fail(case, "an attribute that already held a list changed how the other attributes of the tag are treated",
+                             repr(got), repr(exp))
+                tenc = [] if not table and table is None else [[[k, sorted(v)] for k, v in sorted(table.items())]] if table is not None else []
+                cmds.append([172, tenc, tag, [[enc_key(k), enc_val(v)] for k, v in d.items()]])
+                cases.append((case, [(k, list(v) if isinstance(v, list) else v) for k, v in got.items()]))
     ctx.sample({"table_case": cases[5][0], "stored": cases[5][1]})
     if ctx.build.model_ok:
         for (case, got), mv in zip(cases, ctx.model.run(cmds)):
@@ -153,6 +171,18 @@ def table_cases(ctx):
     exp = ("MyList", ["x", "y"], ["n"], "i  j", "h g", ["h", "g"], [], "MyDict")
     if obs != exp:
         ctx.fail({"markup": "custom attribute classes"}, "parser does not apply multi-valued rules / custom classes", obs, exp)
+    # ... and writes them back joined by single spaces, whatever list class holds them
+    class PlainSub(list):
+        pass
+    a["data-k"] = PlainSub(["u", "v"])
+    a["data-t"] = ("s", "t")
+    out = a.decode()
+    ctx.case(("render-custom-list-classes",))
+    for piece in ('class="x y"', 'rel="n"', 'data-k="u v"', 'data-t="s t"'):
+        if piece not in out:
+            ctx.fail({"markup": "custom attribute classes", "rendered": out},
+                     "a list-valued attribute (custom list class / list subclass / tuple) is not written joined by single spaces",
+                     out, piece)
     soup = BeautifulSoup('<a class="x  y" rel=" n "></a>', "html.parser", multi_valued_attributes=None)
     ctx.case(("parse-mva-none",))
     if (soup.a["class"], soup.a["rel"]) != ("x  y", " n "):
@@ -285,6 +315,23 @@ def dup_cases(ctx):
                 ctx.fail(case, "on_duplicate_attribute policy not honoured", got, exp)
             cmds.append([174, pid, [[enc_key(k), [] if v is None else [v]] for k, v in al]])
             cases.append((case, got))
+    # a builder object configured once and used for several documents keeps its policy
+    from bs4.builder._htmlparser import HTMLParserTreeBuilder as _HPTB
+    for pname, pol, pid in policies:
+        if pname == "default":
+            continue
+        b = _HPTB(on_duplicate_attribute=pol, multi_valued_attributes=None)
+        for round_ in range(3):
+            try:
+                soup = BeautifulSoup('<a x="1" y="2" x="3" x="4"></a>', builder=b)
+                got = list(soup.a.attrs.items())
+            except Exception as e:
+                got = "EXC:" + type(e).__name__
+            exp = {0: [("x", "4"), ("y", "2")], 1: [("x", "1"), ("y", "2")], 2: [("x", "1,3,4"), ("y", "2")]}[pid]
+            ctx.case(("dup-reused-builder", pname, round_))
+            if got != exp:
+                ctx.fail({"policy": pname, "reused_builder_document": round_ + 1, "attributes": [["x", "1"], ["y", "2"], ["x", "3"], ["x", "4"]]},
+                         "on_duplicate_attribute policy not honoured for a later document parsed with the same builder object", got, exp)
     ctx.sample({"dup_case": cases[33][0], "attrs": cases[33][1]})
     if ctx.build.model_ok:
         for (case, got), mv in zip(cases, ctx.model.run(cmds)):
